@@ -9,9 +9,6 @@ NA = {
     "C01": "Static analysis not applicable: agreement with a reference interpreter is a relation between computed "
            "values of two implementations; no structural necessary condition exists beyond those claimed under "
            "C02/C12, and an executable oracle is a different technique family.",
-    "C08": "Static analysis not applicable: argument binding correctness is a function of runtime argument tuples "
-           "evaluated by one loop nest (collect_slow); path/shape rules cannot tell a right from a wrong index "
-           "comparison; the finite space calls for enumeration or model checking, not static analysis.",
 }
 
 NOT_BUILT = "check not built yet in this session (see DESIGN.md for the planned rules); not claimed until it exists"
@@ -189,10 +186,51 @@ CLAIMS = {
 }
 
 
+# rules added in rounds 3/4 (DESIGN.md section 8.7), appended to the level text of each property
+ADDED = {
+    "C02": "R6: the int-specialised equality instruction falls back to the generic equality for operands of another type.",
+    "C04": "R5: every native that takes the mutable view of a list/dict/set on some path takes it on every successful path.",
+    "C05": "R3: byte offsets in the lexer are computed only from positions, byte lengths and constants; R4: no "
+           "`pos() - const` after a helper consumed an unknown number of characters (error spans on char boundaries).",
+    "C06": "R4: all three slice components are optional (expression-free CFG paths after each colon).",
+    "C07": "R8 extended to range slicing (bounds from position-producing std functions / validated conversions); R9: every "
+           "overflow-checked signed + - * is proven exact by interval analysis or reviewed; R10: module slot reads are total "
+           "after a failed evaluation; the depth-counter balance rule accepts the guard before or after the write.",
+    "C09": "R6: nothing reachable from number comparison rounds an integer of arbitrary size to a float (exact mixed "
+           "int/float comparison, transitivity); R7: struct ordering compares values in key-sorted order.",
+    "C10": "R4: float<->int `as` casts in the number code are exact by width (<= 32 bits) or reviewed.",
+    "C12": "R5: a builtin that iterates an argument and calls back into Starlark keeps the iterator alive during the callbacks.",
+    "C13": "R4: the reference sets of Heap/FrozenHeap only grow (who-may-write, no take/clear/replace).",
+    "C14": "R4: the thread-local recursion-depth counter is written only together with the guard that restores it.",
+    "C16": "R3: the annotation of *args/**kwargs is applied element-wise; R4: union normalisation merges no alternatives "
+           "(two known findings); R5: typing types (Ord by name, Eq by id) are never keys of ordered collections.",
+    "C17": "R2: an aliased load is typed under the exported name, as the evaluator looks it up.",
+    "C18": "R4: the debugger's breakpoint-suppression counter is lowered on every exit of evaluate_expr (or by a Drop guard).",
+    "C19": "R2: the IDE binder visits the first comprehension iterable into the enclosing scope, like the compiler "
+           "(quick tier uses the `full` extraction, which contains the LSP crate).",
+    "C20": "R4: only values allocated by the running freezer are registered for FrozenDef::post_freeze.",
+}
+
+CLAIMS["C08"] = (
+    "MIR branch-edge domination (fast-path guard) + failure-exit inventory + who-may-call funnel",
+    "Structural clauses only: R1 the binder's all-positional fast path (collect_inline_impl) is entered only through "
+    "the true edges of all five of its conditions (positional count equals positional parameters and all parameters, "
+    "no named arguments, no *args, no **kwargs); R2 every class of ill-formed call has a failure exit in collect_slow "
+    "(RepeatedArg by position/name and through **kwargs, ExtraPositionalArg, ExtraNamedArg, non-string **kwargs key, "
+    "non-iterable *args, non-dict **kwargs, the unfilled-required arm always errs with three distinct messages) and "
+    "defaults are read; R3 one binder: collect_slow is reached only through collect_inline, and defs, natives "
+    "(parser) and host collect all bind through collect_inline.",
+    "Not decided: that each argument lands in the right slot for every signature x call shape (index arithmetic of one "
+    "loop nest; needs enumeration), call-site packaging of arguments. Trusted: rustc front end, svfacts, CFG kernels.",
+    "DESIGN.md section 8.8")
+
+
 def main():
     checks = []
     for p in sorted(CLAIMS):
         tech, text, note, ref = CLAIMS[p]
+        if p in ADDED:
+            text = text + " Added in rounds 3/4: " + ADDED[p]
         checks.append(dict(
             property_id=p,
             quick_cmd="./check %s --tier quick" % p,
